@@ -41,6 +41,7 @@ def outcome_of(sim, case):
 def config(draw):
     cfg = draw(hist.sim_config(True))
     cfg['long_passwords'] = draw(st.integers(0, 3)) == 0
+    cfg['binary_passwords'] = draw(st.booleans())
     return cfg
 
 
@@ -48,7 +49,7 @@ def machine(tier, ctx):
     import sys
     return hist.make_machine(sys.modules[__name__], tier, ctx, checks=CHECKS, encrypted=True, cfg_strategy=config(),
                              weights=dict(snapshot=4, delete=1, clean=1, restore=1, list=2, concurrent=0, add_user=4,
-                                          cross=2, unlock_wrong=1))
+                                          cross=2, unlock_wrong=2))
 
 
 def run_case(case):
